@@ -68,9 +68,10 @@ class Report:
 
 def load_known():
     p = os.path.join(VERIF, "known_findings.json")
-    if not os.path.exists(p):
-        return []
-    return json.load(open(p))
+    out = json.load(open(p)) if os.path.exists(p) else []
+    for extra in filter(None, os.environ.get("VERIF_KNOWN_EXTRA", "").split(":")):
+        out += json.load(open(extra))     # development aid only (proposed findings of an engine under construction)
+    return out
 
 
 def _match_field(want, got):
